@@ -86,6 +86,12 @@ theorem getNumber_order (n : Nat) :
     (cosetNumbers n).prod = order n ∧ (allTuples n).length = order n :=
   ⟨order_eq_prod n, cosetNumbers_prod n, allTuples_length n⟩
 
+/-- **`rand_SpF2` (`random/_spf2.py:32-58`) is valid for every draw**: it returns `from_int_tuple` of a tuple whose entries are
+drawn with `rng.randint(0, base-1)` (in range), hence a symplectic matrix from which `to_int_tuple` recovers the tuple -/
+theorem rand_SpF2_valid (rawTuple : List (Nat × Nat)) (hr : inRange rawTuple = true) :
+    isSp rawTuple.length (randSpF2 rawTuple) = true ∧ toIntTuple rawTuple.length (randSpF2 rawTuple) = some rawTuple :=
+  ⟨fromIntTuple_mem_Sp rawTuple hr, to_from rawTuple hr⟩
+
 /-! ### finite cross-checks of the specification itself (`decide`, evaluated by the kernel) -/
 
 /-- the predicate `isSp` singles out exactly `|Sp(2,F2)| = 6` of the 16 bit matrices of size 2 -/
